@@ -2,9 +2,14 @@
 Line features: subducting plate and fault (`properties` is the same code modulo the membership test and
 `only_positive`).  Anchors: features/subducting_plate.cc:497-846, fault.cc:470-815, their `*_models/*/*.cc`,
 include/glm/glm.h (quaternion helpers used for grains), include/world_builder/bounding_box.h.
+
+Temperature models: `uniform`, `linear`, `adiabatic` exist for both kinds (`LineTemp`, total functions); the slab has two more,
+`plate model` and `mass conserving` (`SlabTemp`, Model/Models/SlabTemp.lean), which read the `AdditionalParameters` the membership test
+computes (`LineHit.ap`) and can throw.  A segment's list holds either kind (`SegTemp`).
 -/
 import GwbVerif.Model.Features.Area
 import GwbVerif.Model.Geometry.Dpfcp
+import GwbVerif.Model.Models.SlabTemp
 namespace Gwb
 open Scalar
 variable {R : Type} [Scalar R]
@@ -31,6 +36,19 @@ def LineTemp.get (m : LineTemp R) (isFault : Bool) (ctx : Ctx R) (depth gravityN
     else old
   | .adiabatic mn mx op tp alpha cp =>
     if d ≤ mx ∧ d ≥ mn then applyOp op old (adiabat tp alpha gravityNorm cp depth) else old
+
+/-- an entry of a segment's `temperature_systems`: one of the models shared by slab and fault (`LineTemp`, total), or one of the
+slab-only models that read the `AdditionalParameters` and may throw (`SlabTemp`, Model/Models/SlabTemp.lean) -/
+inductive SegTemp (R : Type)
+  | basic (m : LineTemp R)
+  | slab (m : SlabTemp R)
+
+/-- `temperature_model->get_temperature(position, depth, gravity_norm, temperature, starting_depth, maximum_depth, distance_from_planes, additional_parameters)` -/
+def SegTemp.get (m : SegTemp R) (isFault : Bool) (ctx : Ctx R) (depth gravityNorm : R) (pd : PlaneDist R) (ap : AdditionalParams R) (old : R) :
+    Except Err R :=
+  match m with
+  | .basic b => .ok (b.get isFault ctx depth gravityNorm pd old)
+  | .slab s => s.get ctx depth gravityNorm pd ap old
 
 inductive LineComp (R : Type)
   | uniform (mn mx : R) (op : Op) (comps : List Nat) (fractions : List R)
@@ -172,7 +190,7 @@ structure Segment (R : Type) where
   thickness : P2 R
   topTruncation : P2 R
   angle : P2 R            -- degrees, as in the file
-  temps : List (LineTemp R)
+  temps : List (SegTemp R)
   comps : List (LineComp R)
   grains : List (LineGrains R)
   vels : List (LineVel R)
@@ -303,6 +321,8 @@ structure LineHit (R : Type) where
   pd : PlaneDist R
   cur : Segment R
   next : Segment R
+  /-- `Features::AdditionalParameters{max_slab_length, thickness_local}` as computed by the membership test -/
+  ap : AdditionalParams R
 
 /-- the culling pre-test in front of the geometry (subducting_plate.cc:519, fault.cc:493) -/
 def LineFeature.preTest (f : LineFeature R) (ctx : Ctx R) (q : Query R) : Except Err Bool := do
@@ -345,7 +365,7 @@ def LineFeature.coversBody (f : LineFeature R) (ctx : Ctx R) (q : Query R) : Exc
   let inside :=
     if f.isFault then decide (fabs d ≤ thLocal * (0.5 : R)) && decide (a > 0) && decide (a ≤ maxLen)
     else decide (d ≥ ttLocal) && decide (d ≤ thLocal) && decide (a ≥ 0) && decide (a ≤ maxLen)
-  if inside then return some ⟨pd, cur, next⟩ else return none
+  if inside then return some ⟨pd, cur, next, ⟨maxLen, thLocal⟩⟩ else return none
 
 /-- the guards of `SubductingPlate::properties` / `Fault::properties`: `some hit` when the feature writes -/
 def LineFeature.covers (f : LineFeature R) (ctx : Ctx R) (q : Query R) : Except Err (Option (LineHit R)) := do
@@ -358,8 +378,8 @@ def linePaintAt (f : LineFeature R) (ctx : Ctx R) (q : Query R) (h : LineHit R) 
   match p.code with
   | 1 => do
     let old ← idx out e
-    let tc := h.cur.temps.foldl (fun t m => m.get f.isFault ctx q.depth q.gravityNorm h.pd t) old
-    let tn := h.next.temps.foldl (fun t m => m.get f.isFault ctx q.depth q.gravityNorm h.pd t) old
+    let tc ← h.cur.temps.foldlM (fun t m => m.get f.isFault ctx q.depth q.gravityNorm h.pd h.ap t) old
+    let tn ← h.next.temps.foldlM (fun t m => m.get f.isFault ctx q.depth q.gravityNorm h.pd h.ap t) old
     return writeBlock e [tc + sf * (tn - tc)] out
   | 2 => do
     let old ← idx out e
@@ -422,8 +442,8 @@ def LineFeature.applyTemp (f : LineFeature R) (ctx : Ctx R) (q : Query R) (old :
   | none => return old
   | some h =>
     let sf := h.pd.fractionOfSection
-    let tc := h.cur.temps.foldl (fun t m => m.get f.isFault ctx q.depth q.gravityNorm h.pd t) old
-    let tn := h.next.temps.foldl (fun t m => m.get f.isFault ctx q.depth q.gravityNorm h.pd t) old
+    let tc ← h.cur.temps.foldlM (fun t m => m.get f.isFault ctx q.depth q.gravityNorm h.pd h.ap t) old
+    let tn ← h.next.temps.foldlM (fun t m => m.get f.isFault ctx q.depth q.gravityNorm h.pd h.ap t) old
     return tc + sf * (tn - tc)
 
 /-- `distance_to_feature_plane` -/
